@@ -45,9 +45,12 @@ Definition stage_failure (f : nat) : bool :=
 
 Definition cache_key : key := "_internal_data".
 
+(* writers that bind a fresh empty container (net[k] = dict()): tagged by the translator *)
+Definition writes_empty (f : nat) : bool := suffix_of "=empty" (nth f fn_names "?").
+
 Definition cache_clean (x : string * bool * bool * prog) : bool :=
   snd (fst x) (* reuse requested *) ||
-  (let e := eff cache_key stage_failure (prog_of x) in negb (eW (fst e)) && negb (eW (snd e))).
+  (let e := eff cache_key stage_failure writes_empty (prog_of x) in negb (eW (fst e)) && negb (eW (snd e))).
 
 Definition cache_ok : bool :=
   forallb cache_clean all_progs && forallb (fun s => mem s fn_names) stage_failure_sites &&
@@ -56,7 +59,7 @@ Definition cache_ok : bool :=
 (* every raise site (any class) at which a call without the reuse option may still hold a cache it wrote *)
 Definition leaky_sites : list (cfg * string) :=
   flat_map (fun x : string * bool * bool * prog => if snd (fst x) then [] else
-     flat_map (fun i => if eW (snd (eff cache_key (Nat.eqb i) (prog_of x)))
+     flat_map (fun i => if eW (snd (eff cache_key (Nat.eqb i) writes_empty (prog_of x)))
                         then [(cfg_of x, nth i fn_names "?")] else []) (seq 0 (length fn_names))) all_progs.
 
 (* every configuration is present once *)
@@ -91,7 +94,10 @@ Definition wiring_ok : bool :=
   negb (mem "hyd_flag" inspected_option_keys) && negb (mem "<dynamic>" inspected_option_keys) &&
   forallb (fun w => negb (mem (snd w) ["mode"; "reuse_internal_data"; "only_update_hydraulic_matrix";
                                         "transient"; "?"])) option_writes &&
-  forallb (fun nrm => String.eqb (snd nrm) "user_pf_options") normalisations.
+  forallb (fun nrm => String.eqb (snd nrm) "user_pf_options") normalisations &&
+  (* mode heat hands the stored solution over as the pressures and mass flows of the whole pit, nothing else *)
+  Nat.eqb (length heat_handover_writes) 2 && pair_mem "node" "PINIT" heat_handover_writes &&
+  pair_mem "branch" "MDOTINIT" heat_handover_writes.
 
 (* mode heat runs the same set-up phases and the same thermal stage program as mode sequential; what
    differs is the stage in between (stored solution instead of the hydraulic stage) and the mode-specific
@@ -138,6 +144,22 @@ Lemma heat_tail_ok_true : heat_tail_ok = true. Proof. vm_compute. reflexivity. Q
 Lemma all_progs_frame : forallb (fun x : string * bool * bool * prog => negb (writes_user (snd x))) all_progs = true.
 Proof. generalize frame_ok_true. unfold frame_ok. intros H. apply andb_true_iff in H. tauto. Qed.
 
+(* outside the Newton loop: the raise sites at which a call without reuse may still hold a FILLED cache of its own
+   (all in the window between the converged loop and the clean-up: rerun_hydraulics -> connectivity check, and the
+   option lookup of the clean-up itself).  Everywhere else - any other raise site of the whole call - the key is
+   untouched, deleted, or bound to a fresh empty dict. *)
+Definition filled_cache_sites : list string :=
+  ["_connectivity!UserWarning"; "_connectivity!ValueError"; "get_net_option!UserWarning";
+   "identify_active_nodes_branches!PipeflowNotConverged"].
+
+Definition unlisted (f : nat) : bool := negb (mem (nth f fn_names "?") filled_cache_sites).
+
+Definition cache_elsewhere_ok : bool :=
+  forallb (fun x : string * bool * bool * prog =>
+     snd (fst x) || negb (eW (snd (eff cache_key unlisted writes_empty (prog_of x))))) all_progs.
+
+Lemma cache_elsewhere_ok_true : cache_elsewhere_ok = true. Proof. vm_compute. reflexivity. Qed.
+
 Lemma cache_ok_true : cache_ok = true. Proof. vm_compute. reflexivity. Qed.
 
 Lemma accepted : forall x, In x all_progs -> accepts (exceptions (cfg_of x)) (prog_of x) = true.
@@ -146,8 +168,8 @@ Proof.
 Qed.
 
 Lemma cache_clean_in : forall x, In x all_progs -> snd (fst x) = false ->
-  eW (fst (eff cache_key stage_failure (prog_of x))) = false /\
-  eW (snd (eff cache_key stage_failure (prog_of x))) = false.
+  eW (fst (eff cache_key stage_failure writes_empty (prog_of x))) = false /\
+  eW (snd (eff cache_key stage_failure writes_empty (prog_of x))) = false.
 Proof.
   intros x Hx Hr. generalize cache_ok_true. unfold cache_ok. intros H.
   do 3 (apply andb_true_iff in H; destruct H as [H _]). rewrite forallb_forall in H. specialize (H x Hx).
